@@ -16,9 +16,9 @@ RULE = ('"hostile" object graphs bound to a real frame, to watch results, to ret
         '__len__ / __eq__ raise, __getattr__ raising AttributeError, private attribute names, dicts with int / tuple / float / '
         'None keys, strings with NUL, quotes, non-BMP characters and lone surrogates, cyclic structures; 1-4 snapshot '
         'tracepoints on the same line (separate triggers or one trigger) with equal or different limits and watches, each '
-        'action also run alone on the same objects (the "complete on its own" reference). Labelled streams: objects on which '
-        'an UNGUARDED probe of the collector raises (finding candidate), and __str__ raising a BaseException (outside the '
-        'claimed domain, recorded only). Non-trivial = an exotic or failing object is among the collected values, or more '
+        'action also run alone on the same objects (the "complete on its own" reference). Objects on which a probe of the '
+        'collector raises (len / isinstance / .args / hasattr / __dict__) are part of the judged stream; __str__ raising a '
+        'BaseException is outside the claimed domain (labelled stream, recorded only). Non-trivial = an exotic or failing object is among the collected values, or more '
         'than one tracepoint fired. Distinct = canonical JSON of the case.')
 TRUSTED = ['CPython frame.f_locals / eval / id() semantics; str()/len()/tuple()/hasattr() of the generated classes',
            'harness/props/collector_common.py: object builder, raw-fact walker (describe_heap)']
@@ -26,7 +26,6 @@ ASSUMPTIONS = ['host __str__ / __len__ / attribute access raise Exception subcla
                'c06_guard_class); BaseException from __str__ is recorded in a separate stream, not judged',
                'delivery is observed at the push service (protobuf conversion is C08)']
 
-HOSTILE = 'C06/unguarded-probe-aborts-snapshot'
 
 
 def gen(rng, tier):
@@ -46,6 +45,15 @@ def gen(rng, tier):
             c['one_trigger'] = rng.random() < 0.3
             if rng.random() < 0.5:               # identical tracepoints: the snapshots must be equal
                 c['actions'] = [dict(c['actions'][0]) for _ in c['actions']]
+            if rng.random() < 0.35:
+                # conditions: true, false, not evaluable, a value whose text cannot be taken — only that tracepoint is off
+                k = rng.randrange(len(c['actions']))
+                kind = rng.choice(['True', 'False', 'nope', '1 == 1', 'strless', 'strless'])
+                if kind == 'strless':
+                    c['objs'] = c['objs'] + [{'t': 'atom', 'k': rng.choice(['str_raises', 'repr_raises'])}]
+                    c['locals'] = c['locals'] + [['cnd', len(c['objs']) - 1]]
+                    kind = 'cnd'
+                c['actions'][k] = dict(c['actions'][k], condition=kind)
             yield c
         elif r < 0.83:
             c = cc.gen_case(rng, lim=lim, capture=rng.choice(['return', 'exception']))
@@ -77,26 +85,26 @@ def exotic(rng, specs):
     return out
 
 
-def known_replays():
-    reps = []
-    for k, what in (('slots_getattr', 'a slotted local whose __getattr__ raises RuntimeError: hasattr(value, "__dict__") '
-                                      'raises, the whole snapshot is lost'),
-                    ('getattribute', 'a local whose __getattribute__ raises RuntimeError: isinstance(value, Exception) '
-                                     'raises, the whole snapshot is lost'),
-                    ('imposter_list', 'a local of a user class named `list` without __len__: len(value) raises, the whole '
-                                      'snapshot is lost'),
-                    ('args_not_iterable', 'an exception whose args is not iterable: tuple(value.args) raises, the whole '
-                                          'snapshot is lost')):
-        reps.append((HOSTILE, what, {'objs': [{'t': 'hostile', 'k': k}, {'t': 'int', 'v': 5}],
-                                     'locals': [['h', 0], ['q', 1]], 'frame_type': 'single_frame', 'stream': 'hostile',
-                                     'actions': [{'limits': {}}]}))
-    return reps
-
-
 def corpus():
     atoms = [{'t': 'atom', 'k': k} for k in ('bytes', 'datetime', 'deque', 'slotted', 'builtin', 'str_raises',
                                              'repr_raises', 'generator', 'enum', 'namedtuple')]
-    return [
+    hostile = [{'objs': [{'t': 'hostile', 'k': k}, {'t': 'int', 'v': 5}], 'locals': [['h', 0], ['q', 1]],
+                'frame_type': 'single_frame', 'stream': 'corpus', 'actions': [{'limits': {}, 'watches': ['h', 'h']}]}
+               for k in cc.HOSTILE_KEYS]
+    return hostile + [
+        # C06-B: a condition whose value has no text switches off that tracepoint only
+        {'objs': [{'t': 'atom', 'k': 'str_raises'}, {'t': 'int', 'v': 5}], 'locals': [['cnd', 0], ['q', 1]],
+         'frame_type': 'single_frame', 'stream': 'corpus', 'solo': True,
+         'actions': [{'limits': {}}, {'limits': {}, 'condition': 'cnd'}, {'limits': {}, 'condition': 'q == 5'}]},
+        # a raising value inside a container, watched twice (a failed first collection must not leave ids without entries)
+        {'objs': [{'t': 'list', 'e': [1, 2]}, {'t': 'int', 'v': 300}, {'t': 'hostile', 'k': 'slots_getattr'}],
+         'locals': [['x', 0]], 'frame_type': 'no_frame', 'stream': 'corpus',
+         'actions': [{'limits': {}, 'watches': ['x', 'x']}]},
+        # names that begin with '_' + a container type name are not "private names"
+        {'objs': [{'t': 'dict', 'k': [[{'s': '_dict_size'}, 1], [{'s': '_list_y'}, 1]]}, {'t': 'int', 'v': 7},
+                  {'t': 'obj', 'a': [['_Plain__hidden', 1], ['_Plainx', 1], ['_dict_size', 1]]}],
+         'locals': [['_dict_size', 1], ['d', 0], ['_list_y', 2]], 'frame_type': 'single_frame', 'stream': 'corpus',
+         'actions': [{'limits': {}}]},
         # D5 / D7: values without __dict__, values whose str raises
         {'objs': atoms, 'locals': [['v%d' % i, i] for i in range(len(atoms))], 'frame_type': 'single_frame',
          'stream': 'corpus', 'actions': [{'limits': {}}]},
@@ -127,12 +135,6 @@ def oracle(case, obs):
     if live is None:
         raise core.Infra('oracle called without the live objects of its evaluation')
     return cc.judge_total(case, obs, live)
-
-
-def known_finding(case, obs):
-    if cc.has_hostile(case):
-        return HOSTILE
-    return None
 
 
 model_request = cc.model_request
